@@ -12,17 +12,17 @@ def run(ctx):
     jobs = []
     seeds = ctx.seeds(48, "storm")
     if ctx.quick:
-        plan = [(2000, None, None, 24)] * 8 + [(500, 4, None, 20)] * 2 + [(2000, None, "stormpw", 16)] * 4 + [(0, None, None, 20)] * 2
+        plan = [(2000, None, None, 60)] * 8 + [(500, 4, None, 50)] * 2 + [(2000, None, "stormpw", 40)] * 4 + [(0, None, None, 50)] * 2
     else:
-        plan = [(2000, None, None, 60)] * 8 + [(300, 2, None, 40)] * 2 + [(5000, 1, None, 30)] + [(2000, None, "stormpw", 40)] * 3 \
-            + [(0, None, None, 40)] * 2
+        plan = [(2000, None, None, 300)] * 8 + [(300, 2, None, 200)] * 2 + [(5000, 1, None, 100)] + [(2000, None, "stormpw", 200)] * 3 \
+            + [(0, None, None, 200)] * 2
     for i, (jit, thr, pw, rounds) in enumerate(plan):
         jobs.append((binary, hooks, seeds[i], jit if hooks else 0, thr, pw, rounds, ctx.quick))
     with multiprocessing.Pool(16) as pool:
         outs = pool.map(storm.worker, jobs)
     if not ctx.quick:
         rb, rhooks = ctx.binary(release=True)
-        rjobs = [(rb, rhooks, seeds[20 + i], 2000, None, None, 40, False) for i in range(6)]
+        rjobs = [(rb, rhooks, seeds[20 + i], 2000, None, None, 150, False) for i in range(6)]
         with multiprocessing.Pool(6) as pool:
             outs += pool.map(storm.worker, rjobs)
     winners = set()
@@ -56,7 +56,7 @@ def run(ctx):
                 "numbered PRIVMSGs/PINGs: replies in command order, per (sender, receiver) strictly increasing without gap or "
                 "duplicate, prefixes true; W5 random churn bursts: invariants I1-I8 at quiescence, every connection answers; "
                 "distinct = workload classes; evidence lists distinct winners and reconstructed orders")
-    res.floor("rounds", res.evaluations, 200 if ctx.quick else 500)
+    res.floor("rounds", res.evaluations, 400 if ctx.quick else 2000)
     res.floor("distinct_orders_and_interleavings", orders, 4)
     if hooks:
         res.floor("windows_passed", windows, 50)
